@@ -143,6 +143,13 @@ class VC:
             return obj._vc_super()
         raise Unsupported(f"super() of {type(obj).__name__}")
 
+    def nested_stub(self, name, env):
+        """the contract stub of a nested function that is under its own contract (bound per path by the contract)"""
+        stubs = C.ghost.get("nested_stubs") or {}
+        if name not in stubs:
+            raise ContractBindError(f"no stub bound for the nested function {name}")
+        return stubs[name](dict(env))
+
     def str_join(self, sep, parts):
         if hasattr(parts, "_vc_join"):
             return parts._vc_join(sep)
@@ -318,7 +325,7 @@ class FunctionUnderContract:
         path = os.path.join(REPO, *c.module.split(".")) + ".py"
         fn_ast, self.src_hash, self.src = load_function(path, c.qualname)
         specs = dict(getattr(c, "loops", {}) or {})
-        self.rewritten, self.nloops = rewrite_function(fn_ast, specs, rename="__f")
+        self.rewritten, self.nloops = rewrite_function(fn_ast, specs, rename="__f", nested_stubs=tuple(getattr(c, "nested_stubs", ())))
         ns = dict(vars(mod))
         ns.update(_BUILTIN_OVERRIDES)
         ns["logger"] = sym.Inert()
